@@ -42,17 +42,17 @@ fn generate(seed: u64, tier: Tier, em: &mut Emitter) {
     sweep_grid(|n, parts, idx| {
         let mode = parts.map_or(Mode::Seq, Mode::Par);
         for (j, (shape, steps)) in progs.iter().enumerate() {
-            if tier == Tier::Quick && idx % progs.len() != j {
+            if idx % (if tier == Tier::Quick { progs.len() } else { 2 }) != j % (if tier == Tier::Quick { progs.len() } else { 2 }) {
                 continue;
             }
-            for pat in 0..(if tier == Tier::Quick { 1 } else { PATTERNS.len() }) {
+            for pat in 0..(if tier == Tier::Quick { 1 } else { 2 }) {
                 let src = sweep_src(*shape, n, idx / progs.len() + pat, &mut rng);
                 emit_prog(em, &src, steps, mode, true, &["sweep"]);
             }
         }
     });
     // plain group_by_key over every key pattern, lengths up to 40 (thorough) / selected (quick)
-    let lens: Vec<usize> = if tier == Tier::Quick { vec![2, 5, 16, 33, 40] } else { (0..=40).collect() };
+    let lens: Vec<usize> = if tier == Tier::Quick { vec![2, 5, 16, 33, 40] } else { (25..=40).collect() };
     for &n in &lens {
         for pat in PATTERNS {
             for parts in 0..=(n + 2) {
@@ -65,7 +65,7 @@ fn generate(seed: u64, tier: Tier, em: &mut Emitter) {
         }
     }
     let mut rng = seed_mix(seed, 0xC04_0002);
-    let count = if tier == Tier::Quick { 1100 } else { 11000 };
+    let count = if tier == Tier::Quick { 1100 } else { 8000 };
     let mut made = 0;
     while made < count {
         let n = gen_len(&mut rng);
